@@ -1,0 +1,57 @@
+//go:build verif
+// +build verif
+
+package raft
+
+// ---------------------------------------------------------------------------
+// InstallSnapshot handler (C09, C10, C12, C19)
+
+// Log.Reset (T-abs view): the log becomes empty at lastIndex
+// gfault: a storage primitive has reported an error (the node is about to stop: C10/C15 premise)
+//@ ghost var gfault bool
+//@ view (*log.Log).Reset
+//@   modifies l.gprev, l.glast, gfault
+//@   ensures result0 == nil ==> l.gprev == lastIndex && l.glast == lastIndex && gfault == old(gfault)
+//@   ensures result0 != nil ==> gfault
+
+//@ func (*storage).clearLog
+//@   requires s.log != nil && s.snaps != nil
+//@   modifies s.lastLogIndex, s.lastLogTerm, s.flushed, s.log.gprev, s.log.glast, gfault
+//@   ensures result0 != nil ==> gfault
+//@   ensures result0 == nil ==> gfault == old(gfault)
+//@   ensures [C09.clear-log] result0 == nil ==> s.lastLogIndex == s.snaps.index && s.lastLogTerm == s.snaps.term && s.log.gprev == s.snaps.index && s.log.glast == s.snaps.index
+//@   ensures result0 != nil ==> istype(result0, OpError)
+
+//@ func (*storage).getEntryTerm
+//@   requires s.log != nil
+//@   maypanic OpError
+//@   ensures result1 == nil ==> result0 == s.gterm[index]
+//@   ensures s.log.gprev < index && index <= s.lastLogIndex ==> result1 == nil
+
+// io.CopyN (T-std): moves bytes between a reader and a writer; no raft state involved
+//@ func io.CopyN
+//@   trusted
+//@   ensures result0 >= 0 && result0 <= n && (result1 == nil ==> result0 == n)
+
+//@ func (*Raft).onInstallSnapRequest$1
+//@   loop 1 invariant true
+
+//@ func (*Raft).onInstallSnapRequest
+//@   requires NodeInv(r) && c.bufr != nil && r.snaps.used != nil && r.snaps.retain >= 1 && AllBelow(r.snaps) && SnapsInv(r.snaps)
+//@   requires [C10.snapshot-publish] PubInv(r.snaps.dir)
+//@   requires !gfault
+//@   requires [PA1.install-not-stale] req.term >= r.term ==> req.lastIndex >= r.commitIndex && req.lastIndex >= r.snaps.index
+//@   requires [PA1.install-new-index] req.term >= r.term ==> !fs[mfile(r.snaps.dir, req.lastIndex)]
+//@   requires [PA1.install-committed-prefix] req.term >= r.term && r.log.gprev < req.lastIndex && req.lastIndex <= r.lastLogIndex && req.lastIndex <= r.commitIndex ==> r.gterm[req.lastIndex] == req.lastTerm
+//@   modifies *
+//@   maypanic OpError
+//@   ensures [C05.term-monotone] r.term >= old(r.term)
+//@   ensures [C17.stale-ignored] req.term < old(r.term) ==> result0 != success && r.term == old(r.term) && r.state == old(r.state) && r.leader == old(r.leader) && r.commitIndex == old(r.commitIndex) && r.lastLogIndex == old(r.lastLogIndex) && r.snaps.index == old(r.snaps.index)
+//@   ensures [C01.step-down] req.term >= old(r.term) ==> r.term == req.term && r.state == Follower && (r.leader == req.src || r.leader == 0)
+//@   ensures [C12.install-label] result0 == success ==> r.snaps.index == req.lastIndex && r.snaps.term == req.lastTerm
+//@   ensures [C09.install-keeps-matching-suffix] result0 == success && old(r.log.gprev) < req.lastIndex && req.lastIndex <= old(r.lastLogIndex) && old(r.gterm[req.lastIndex]) == req.lastTerm ==> r.lastLogIndex == old(r.lastLogIndex) && r.commitIndex == old(r.commitIndex) && r.configs.Latest == old(r.configs.Latest) && r.log.gprev <= req.lastIndex
+//@   ensures [C09.install-discards-otherwise] result0 == success && !(old(r.log.gprev) < req.lastIndex && req.lastIndex <= old(r.lastLogIndex) && old(r.gterm[req.lastIndex]) == req.lastTerm) ==> r.lastLogIndex == req.lastIndex && r.log.gprev == req.lastIndex && r.commitIndex == req.lastIndex && r.configs.Latest == req.lastConfig && r.configs.Committed == req.lastConfig
+//@   ensures [C19.commit-monotone] result0 == success ==> r.commitIndex >= old(r.commitIndex)
+//@   ensures [C19.snapshot-monotone] r.snaps.index >= old(r.snaps.index)
+//@   ensures [C19.order] result0 == success ==> r.log.gprev <= r.snaps.index && r.snaps.index <= r.lastLogIndex && r.commitIndex <= r.lastLogIndex && r.log.glast == r.lastLogIndex
+//@   crash_inv [C10.install-window] gfault || (r.log.gprev <= r.snaps.index && r.snaps.index <= r.log.glast)
